@@ -488,6 +488,7 @@ type FuncSpec struct {
 	Params       []SVar // for deps specs without Go declaration (unused when bound to Go func)
 	GhostLets    []*Clause
 	EmitsC       []*Clause
+	RecvInv      []*Clause // assumed invariants of messages of a type (Name = type name, variable msg)
 	modsResolved bool
 	ModObjs      map[string][]string // heap key -> parameter/receiver names whose object alone is modified (absent: any object)
 }
@@ -547,7 +548,7 @@ type SpecFile struct {
 
 var clauseKeywords = map[string]bool{
 	"requires": true, "ensures": true, "modifies": true, "invariant": true, "loop": true,
-	"iter": true, "decreases": true, "emits": true, "flag": true, "use": true, "prop": true, "induction": true,
+	"iter": true, "decreases": true, "emits": true, "recvinv": true, "flag": true, "use": true, "prop": true, "induction": true,
 	"field": true, "assumed": true, "pure": true, "end": true,
 }
 var headerKeywords = map[string]bool{"func": true, "type": true, "spec": true, "lemma": true, "ghost": true, "axiom": true, "package": true}
@@ -691,6 +692,21 @@ func parseSpecText(path, pkgPath string, lines []string, lineNos []int) (*SpecFi
 			default:
 				return nil, fmt.Errorf("%s:%d: %s outside func/lemma", path, it.line, kw)
 			}
+		case "recvinv":
+			// recvinv <Type>: <expr over msg>   -- assumed (unchecked) invariant of every received message of that type
+			if curF == nil {
+				return nil, fmt.Errorf("%s:%d: recvinv outside func", path, it.line)
+			}
+			k := strings.Index(rest, ":")
+			if k < 0 {
+				return nil, fmt.Errorf("%s:%d: recvinv <Type>: <expr>", path, it.line)
+			}
+			c, err := mkClause(kw, strings.TrimSpace(rest[k+1:]), it.line)
+			if err != nil {
+				return nil, err
+			}
+			c.Name = strings.TrimSpace(rest[:k])
+			curF.RecvInv = append(curF.RecvInv, c)
 		case "emits":
 			if curF == nil {
 				return nil, fmt.Errorf("%s:%d: emits outside func", path, it.line)
